@@ -43,7 +43,7 @@ func gDeployment(t *rapid.T) (obj, string) {
 	d := obj{
 		"apiVersion": "apps/v1", "kind": "Deployment", "metadata": baseMeta(idDeployment),
 		"spec": obj{
-			"replicas":                rapid.SampledFrom([]int{0, 1, 1, 2, 3, 3, 5}).Draw(t, "replicas"),
+			"replicas":                rapid.SampledFrom([]int{0, 1, 1, 2, 3, 3, 5, 5, 5, 2}).Draw(t, "replicas"),
 			"selector":                obj{"matchLabels": obj{"app": wlName}},
 			"template":                baseTemplate(t),
 			"revisionHistoryLimit":    10,
@@ -91,8 +91,8 @@ func gDeployment(t *rapid.T) (obj, string) {
 
 func gDeploymentEdits(t *rapid.T, newO obj, ip string) []string {
 	var edits []string
-	if rapid.IntRange(0, 3).Draw(t, "edit-replicas") == 0 {
-		setPath(newO, rapid.SampledFrom([]int{0, 0, 1, 4}).Draw(t, "new-replicas"), "spec", "replicas")
+	if rapid.IntRange(0, 4).Draw(t, "edit-replicas") == 0 {
+		setPath(newO, rapid.SampledFrom([]int{0, 1, 4, 6}).Draw(t, "new-replicas"), "spec", "replicas")
 		edits = append(edits, "replicas")
 	}
 	pausedP := 3
@@ -129,7 +129,7 @@ func gDeploymentEdits(t *rapid.T, newO obj, ip string) []string {
 }
 
 func gReplicaSets(t *rapid.T, oldO, newO obj) []*apps.ReplicaSet {
-	n := rapid.SampledFrom([]int{0, 1, 1, 1, 1, 2, 2, 3}).Draw(t, "replicasets")
+	n := rapid.SampledFrom([]int{0, 1, 1, 1, 1, 1, 2, 2, 2, 3}).Draw(t, "replicasets")
 	tmpl := func(o obj) corev1.PodTemplateSpec {
 		var ts corev1.PodTemplateSpec
 		v, _ := getPath(o, "spec", "template")
@@ -151,7 +151,12 @@ func gReplicaSets(t *rapid.T, oldO, newO obj) []*apps.ReplicaSet {
 			Spec: apps.ReplicaSetSpec{Selector: &metav1.LabelSelector{MatchLabels: map[string]string{"app": wlName, hashLabel: fmt.Sprintf("hash%d", i)}}},
 		}
 		yes := true
-		switch rapid.SampledFrom([]string{"self", "self", "self", "self", "self", "self", "self", "other-uid", "none", "self-not-controller"}).Draw(t, l+"owner") {
+		plain := rapid.IntRange(0, 9).Draw(t, l+"plain") < 6 // an ordinary live ReplicaSet of this Deployment
+		ownerOpts := []string{"self", "self", "self", "self", "self", "self", "self", "other-uid", "none", "self-not-controller"}
+		if plain {
+			ownerOpts = []string{"self"}
+		}
+		switch rapid.SampledFrom(ownerOpts).Draw(t, l+"owner") {
 		case "self":
 			rs.OwnerReferences = []metav1.OwnerReference{{APIVersion: "apps/v1", Kind: "Deployment", Name: wlName, UID: types.UID(wlUID), Controller: &yes}}
 		case "other-uid":
@@ -159,15 +164,18 @@ func gReplicaSets(t *rapid.T, oldO, newO obj) []*apps.ReplicaSet {
 		case "self-not-controller":
 			rs.OwnerReferences = []metav1.OwnerReference{{APIVersion: "apps/v1", Kind: "Deployment", Name: wlName, UID: types.UID(wlUID)}}
 		}
-		if rapid.IntRange(0, 11).Draw(t, l+"labels-off") == 0 {
+		if !plain && rapid.IntRange(0, 7).Draw(t, l+"labels-off") == 0 {
 			rs.Labels["app"] = "someone-else"
 		}
-		if rapid.IntRange(0, 14).Draw(t, l+"ns-off") == 0 {
+		if !plain && rapid.IntRange(0, 9).Draw(t, l+"ns-off") == 0 {
 			rs.Namespace = "other-ns"
 		}
 		r := int32(rapid.SampledFrom([]int{0, 1, 2, 3, 3}).Draw(t, l+"replicas"))
+		if plain && r == 0 {
+			r = 2
+		}
 		rs.Spec.Replicas = &r
-		if rapid.IntRange(0, 11).Draw(t, l+"deleting") == 0 {
+		if !plain && rapid.IntRange(0, 7).Draw(t, l+"deleting") == 0 {
 			ts := metav1.Unix(1700000000, 0)
 			rs.DeletionTimestamp = &ts
 			rs.Finalizers = []string{"foregroundDeletion"}
@@ -226,7 +234,7 @@ func gCloneSet(t *rapid.T) obj {
 	}
 	applyMapShape(cs, gLabelsShape(t, "labels-shape", true), "metadata", "labels")
 	applyMapShape(cs, gLabelsShape(t, "ann-shape", true), "metadata", "annotations")
-	r := rapid.SampledFrom([]int{-1, 0, 0, 1, 3, 3, 5, 5}).Draw(t, "replicas")
+	r := rapid.SampledFrom([]int{-1, 0, 1, 1, 3, 3, 5, 5}).Draw(t, "replicas")
 	if r >= 0 {
 		setPath(cs, r, "spec", "replicas")
 	} else {
@@ -316,8 +324,8 @@ func genWorkload(t *rapid.T) Case {
 	case "Deployment":
 		c.Edits = append(c.Edits, gDeploymentEdits(t, newO, c.InProgress)...)
 	case "CloneSet":
-		if rapid.IntRange(0, 3).Draw(t, "edit-replicas") == 0 {
-			setPath(newO, rapid.SampledFrom([]int{0, 0, 1, 4}).Draw(t, "new-replicas"), "spec", "replicas")
+		if rapid.IntRange(0, 4).Draw(t, "edit-replicas") == 0 {
+			setPath(newO, rapid.SampledFrom([]int{0, 1, 4, 6}).Draw(t, "new-replicas"), "spec", "replicas")
 			c.Edits = append(c.Edits, "replicas")
 		}
 		if rapid.IntRange(0, 5).Draw(t, "edit-partition") == 0 {
@@ -446,6 +454,7 @@ func verdictWorkload(c Case) (verdict, bool) {
 	case "DaemonSet":
 		desired, _ := numAt(newO, "status", "desiredNumberScheduled")
 		updated, _ := numAt(newO, "status", "updatedNumberScheduled")
+		onDelete := strAt(newO, "spec", "updateStrategy", "type") == "OnDelete"
 		if !release {
 			v.Unchanged, v.Class = true, "unchanged:not-release"
 			break
@@ -453,7 +462,8 @@ func verdictWorkload(c Case) (verdict, bool) {
 		decide(c, &v, func(r *v1beta1.Rollout) string {
 			// The statement speaks of running replicas and, with traffic routing, a single revision;
 			// for DaemonSets the webhook holds regardless, which is the safe side: both are accepted.
-			if desired == 0 || (refHasTraffic(r) && updated != desired) {
+			// OnDelete: the DaemonSet controller never replaces a pod by itself (as for StatefulSets).
+			if desired == 0 || onDelete || (refHasTraffic(r) && updated != desired) {
 				return "either"
 			}
 			return "held"
@@ -463,6 +473,7 @@ func verdictWorkload(c Case) (verdict, bool) {
 		}
 	}
 	weak()
+	v.NT = release && hasActiveRollout(c) // the property's non-trivial rule (plus in-progress un-pause above)
 	return v, sel
 }
 
